@@ -405,6 +405,15 @@ func runC04(r *Rand, tier string, o *Out) {
 	}
 	for s := 0; s < rounds; s++ {
 		o.Do("P", "sv.reset", false)
+		// an instrumented object answers through a wrapped channel: statistics or traces switched on
+		switch r.Intn(4) {
+		case 0:
+			o.Do("P", "sv.frame 1 2 1 81 01", true)
+			o.Count("round:statistics-enabled")
+		case 1:
+			o.Do("P", "sv.frame 1 2 1 85 01", true)
+			o.Count("round:traces-enabled")
+		}
 		for i := 0; i < 25; i++ {
 			typ := r.Pick(1, 1, 1, 4, 4, 6, 7, 7, 2, 3, 5, 8)
 			svc := r.Pick(1, 1, 1, 2, 2, 2, 3, 9)
